@@ -235,11 +235,11 @@ def scenarios(pid, tier, seed):
             # depth 5: the first depth at which two root moves' subtrees share a position with two or more plies still to
             # search.  Decided by the harness against a plain minimax over the engine's own generator and leaf score
             # (the extracted model needs ~25 s per depth-5 position; it is the oracle of the thorough tier's sample below)
-            {"args": ["scen", "family=searches", "depths=5", "pools=1,4", "selfmm=1", "maxpieces=4", "walkpos=%d" % (400 if q else 3000), "game=%d" % (0 if q else 2), S], "shards": 16},
+            {"args": ["scen", "family=searches", "depths=5", "pools=1,4", "selfmm=1", "maxpieces=4", "walkpos=%d" % (400 if q else 1200), "game=%d" % (0 if q else 2), S], "shards": 16},
             # the score the real watch loop shows for every searched move
             {"args": ["scen", "family=watch", "games=%d" % (2 if q else 16), "limit=%d" % (16 if q else 60), S], "shards": 2},
             # depth 6 in mating nets (lone king v two heavy pieces): forced mates of different lengths inside the horizon
-            {"args": ["scen", "family=searches", "depths=6", "pools=1,4", "selfmm=1", "nets=%d" % (32 if q else 400), "walkpos=0", S], "shards": 16},
+            {"args": ["scen", "family=searches", "depths=6", "pools=1,4", "selfmm=1", "nets=%d" % (32 if q else 160), "walkpos=0", S], "shards": 16},
         ] + ([] if q else [
             {"args": ["scen", "family=searches", "depths=4,5", "pools=1,4", "maxpieces=4", "walkpos=100", S], "shards": 16},
         ])
